@@ -61,7 +61,6 @@ package keytab
 
 //@ func (*keytab.Keytab).GetEncryptionKey(kt, princName, realm, kvno, etype) (key, kv, err)
 //@   pure
-//@   requires 0 <= kvno && kvno < 4294967296
 //@   ensures err == nil ==> exists j int :: 0 <= j && j < len(kt.Entries) && kmatch(kt.Entries[j], princName, realm, kvno, etype)
 //@        && key == kt.Entries[j].Key && kv == int(kt.Entries[j].KVNO)
 //@        && (forall m int :: 0 <= m && m < len(kt.Entries) && kmatch(kt.Entries[m], princName, realm, kvno, etype) ==> !(kt.Entries[m].Timestamp.After(kt.Entries[j].Timestamp)))
